@@ -16,7 +16,7 @@ import re
 import zlib
 
 from .. import common, tlc, tlaval
-from .c17 import fix_coverage, require_actions, cfg_text, dump_blocks, J
+from .c17 import fix_coverage, require_actions, cfg_text, dump_blocks, J, guard
 
 COMPS = ("Y", "C1", "C2")
 SUB = {"444": 0, "422": 1, "420": 2}
@@ -427,28 +427,29 @@ def trace_direction(ctx):
     for r in records:
         if r["ev"] == "cmp":
             exits[r["exit"]] = exits.get(r["exit"], 0) + 1
-    if any(exits.get(k, 0) == 0 for k in (0, 1, 2, 3, 4)):
-        raise RuntimeError("vacuity: recorded comparisons did not produce every exit code: %r" % (exits,))
+    guard(ctx, all(exits.get(k, 0) > 0 for k in (0, 1, 2, 3, 4)), "vacuity: recorded comparisons did not produce every exit code: %r" % (exits,))
     deep = sum(1 for r in records if r["ev"] == "rt" and max(r["fmt"]["dl"], r["fmt"]["dc"]) > 32)
-    if deep == 0:
-        raise RuntimeError("vacuity: no recorded round trip above 32 bits")
+    guard(ctx, deep > 0, "vacuity: no recorded round trip above 32 bits")
     # binding self-test: corrupted recorded fields must be rejected on exactly those lines
-    rt = next(dict(r) for r in records if r["ev"] == "rt" and r["exc"] == "none")
-    cm = next(dict(r) for r in records if r["ev"] == "cmp" and r["exit"] == 4)
-    c0 = next(dict(r) for r in records if r["ev"] == "cmp" and r["exit"] == 0)
-    rd = dict(rt["rd"])
-    rd["Y"] = [list(rd["Y"][0])] + rd["Y"][1:]
-    rd["Y"][0][0] ^= 1
-    rt["rd"] = rd
-    cc = dict(cm["counts"])
-    k = next(c for c in COMPS if cc[c] > 0)
-    cc[k] += 1
-    cm["counts"] = cc
-    c0["exit"] = 4
-    pbad, _ = trace.validate("RawFileTrace", [rt, cm, c0])
-    got = sorted((b["line"], b["clause"], b["alarm"]) for b in pbad)
-    if got != [(1, "RoundTripSamples", True), (2, "DifferenceCounts", True), (3, "ExitCode", True)]:
-        raise RuntimeError("trace binding self-test failed: corrupted fields judged as %r" % (got,))
+    try:
+        rt = next(dict(r) for r in records if r["ev"] == "rt" and r["exc"] == "none" and r["rd"]["Y"] and len(r["rd"]["Y"][0]) > 0 and r["rd"]["Y"][0][0] >= 0)
+        cm = next(dict(r) for r in records if r["ev"] == "cmp" and r["exit"] == 4 and any(r["counts"][c] > 0 for c in COMPS))
+        c0 = next(dict(r) for r in records if r["ev"] == "cmp" and r["exit"] == 0)
+        rd = dict(rt["rd"])
+        rd["Y"] = [list(rd["Y"][0])] + rd["Y"][1:]
+        rd["Y"][0][0] ^= 1
+        rt["rd"] = rd
+        cc = dict(cm["counts"])
+        k = next(c for c in COMPS if cc[c] > 0)
+        cc[k] += 1
+        cm["counts"] = cc
+        c0["exit"] = 4
+        pbad, _ = trace.validate("RawFileTrace", [rt, cm, c0])
+        got = sorted((b["line"], b["clause"], b["alarm"]) for b in pbad)
+        okst = got == [(1, "RoundTripSamples", True), (2, "DifferenceCounts", True), (3, "ExitCode", True)]
+    except StopIteration:
+        got, okst = "no suitable recorded event", False
+    guard(ctx, okst, "trace binding self-test failed: corrupted fields judged as %r" % (got,))
     small = lambda r: dict((k, (v if k not in ("wr", "rd", "file", "a", "b") else "...")) for k, v in r.items())
     return len(records), dis, {"exit_codes": exits, "roundtrips_above_32_bits": deep}, [small(records[0]), small(records[counts["rt"]])]
 
@@ -468,7 +469,7 @@ def selftest_binding(cases):
     try:
         hit = 0
         for c in cases:
-            if any(s.startswith("C23|roundtrip-samples|Y") for s, _ in g_exec(c)["violations"]):
+            if any(s.startswith("C23|roundtrip-samples|Y") or s.startswith("C23|pic-exception") for s, _ in g_exec(c)["violations"]):
                 hit += 1
     finally:
         file_format.read_picture = orig
@@ -491,8 +492,7 @@ def run(ctx):
     npic = sum(1 for r in out if r["stage"] == "pic")
     ncmp = sum(1 for r in out if r["stage"] == "cmp")
     depths = set(r["sample"]["fmt"]["dl"] for r in out if r["stage"] == "pic")
-    if depths != set(range(1, 65)) or ncmp == 0:
-        raise RuntimeError("vacuity: depths replayed %r, comparisons %d" % (sorted(depths), ncmp))
+    guard(ctx, depths == set(range(1, 65)) and ncmp > 0, "vacuity: depths replayed %r, comparisons %d" % (sorted(depths), ncmp))
     exits = {}
     for r in out:
         if r["stage"] == "cmp":
@@ -500,8 +500,7 @@ def run(ctx):
     ntr, tdis, tstats, tsamples = trace_direction(ctx)
     probe = [r["sample"] for r in out if r["stage"] == "pic" and r["sample"]["fmt"]["dl"] == 64 and r["sample"]["pic"]["sc"] == "max"][:20]
     hit = selftest_binding(probe)
-    if hit == 0:
-        raise RuntimeError("binding self-test failed: a read_picture losing bit 63 was not detected")
+    guard(ctx, hit > 0, "binding self-test failed: a read_picture losing bit 63 was not detected")
     pics = [r for r in out if r["stage"] == "pic"]
     cmps = [r for r in out if r["stage"] == "cmp"]
     ctx.coverage.update(
